@@ -8,8 +8,8 @@ import traceback
 from . import extract, execu, spec, models, vcgen, seqs  # noqa: F401  (seqs installs hooks)
 
 VERIF = os.path.dirname(os.path.dirname(os.path.abspath(__file__)))
-CONTRACT_MODULES = ["election", "detector_base", "ddm", "eddm", "stepd", "page_hinkley", "cusum", "adwin", "lfr",
-                    "md3", "ensemble", "validation", "hdm", "kdq", "nndvi", "pcacd", "injection"]
+sys.path.insert(0, VERIF)
+from pyvc_modules import CONTRACT_MODULES  # noqa: E402
 
 
 def load_registry():
